@@ -89,3 +89,10 @@ def register(R):
     def mva_inv(acc, i, xs, env):
         return Or(failed(acc), And(ok(acc), assigned_upto(acc[1].val(), env, i, xs)))
     R.loop(mk, "reduce", 0, acc_type=TupleTy([OptTy(ExcT), OptTy(SIM)]), props=("C17", "C08", "C02", "C09"), invariant=mva_inv)
+
+    # ------------------------------------------------------------ routes between the stops of a plan: assumed (router interface)
+    LT = world.class_ty("LinkTraversal")
+    s = R.spec(DOPS + "create_routes", arg_types={"sim": SIM}, ret=SeqTy(SeqTy(LT)))
+    s.opaque = True
+    s.assume_only("one route per consecutive pair of plan stops, each asked from sim.road_network.route (router interface, C13); "
+                  "body: map of a forking closure over iterators.sliding(plan, 2), out of reach")
